@@ -320,6 +320,31 @@ func TestVerif_C02_Authz(t *testing.T) {
 				q := *lastReq
 				w.doRequest(rt, rec, q, last, &nontrivial, &denyRoutable, &stale, &allowedN, &deniedN, fail)
 			},
+			// a policy write whose storage write fails: the API reports an error and the previous policy must stay in force
+			"policy-write-fault": func(rt *rapid.T) {
+				name := []string{"p1", "p2", "p3"}[fairIndex(rt, "name", 3)]
+				p := c02GenPolicy(rt, "")
+				if fairIndex(rt, "broad", 2) == 0 {
+					p.stanzas = []c02Stanza{{pattern: "*", caps: []string{"create", "read", "update", "delete", "list", "sudo"}}}
+				}
+				g := verifx.GoID()
+				f, fired := verifx.FailNth(func(o *verifx.Op) bool {
+					return o.G == g && (o.Kind == "put" || o.Kind == "commit") && (strings.Contains(o.Key, "sys/policy/") || o.Kind == "commit")
+				}, 1)
+				tc.rec.SetFault(f)
+				r := tc.req(logical.UpdateOperation, "sys/policy/"+name, tc.root, map[string]any{"policy": p.hcl()})
+				tc.rec.SetFault(nil)
+				if r.ok() {
+					if fired() != nil {
+						fail("policy-write-reported-success-despite-fault", fmt.Sprintf("policy write of %s reported success although its storage write failed", name))
+					}
+					w.pols[name] = p
+					w.logf("policy %s = %s (no fault hit)", name, strings.ReplaceAll(p.hcl(), "\n", " "))
+				} else {
+					w.logf("policy %s write FAILED by storage fault (%v): previous version stays; rejected text: %s", name, r, strings.ReplaceAll(p.hcl(), "\n", " "))
+					nontrivial = true
+				}
+			},
 			"policy": func(rt *rapid.T) {
 				ns := rapid.SampledFrom([]string{"", "", "ns1/"}).Draw(rt, "ns")
 				name := rapid.SampledFrom([]string{"p2", "p3", "p2", "p1"}).Draw(rt, "name")
@@ -403,7 +428,7 @@ func TestVerif_C02_Authz(t *testing.T) {
 			"request4": func(rt *rapid.T) { request(rt) },
 		}
 		// rapid favours small draw values, so the slot table starts with the actions that should dominate
-		slots := []string{"request", "request", "request", "toggle-and-repeat", "request", "request", "token", "toggle-and-repeat", "policy", "request", "request", "revoke", "policy-delete", "token", "policy"}
+		slots := []string{"request", "request", "request", "toggle-and-repeat", "request", "request", "token", "toggle-and-repeat", "policy", "request", "request", "revoke", "policy-delete", "token", "policy", "policy-write-fault"}
 		rt.Repeat(map[string]func(*rapid.T){
 			"step": func(rt *rapid.T) {
 				a := slots[fairIndex(rt, "action", len(slots))]
